@@ -79,6 +79,31 @@ def body_reshuffle2(backing, n, *args):
     return True
 
 
+def body_frozen2(path, n, *args):
+    """two iterators in flight over stages that freeze a reshuffle per iteration (catch, multi-worker prefetch, explicit frozen copies)"""
+    r, s = list(args[:10]), list(args[10:])
+    rng = rt.Rng(sel=r)
+    src = ListDataset(list(range(n)))
+    base = src.shuffle(True, rng=rng)
+    if path == 'catch':
+        a = b = base.catch()
+    elif path == 'prefetch':
+        a = b = base.prefetch(2, 2)
+    else:
+        a, b = base.copy(freeze=True), base.copy(freeze=True)
+    its = [iter(a), iter(b)]
+    outs = [[], []]
+    for step in range(2 * n):
+        w = 0 if s[step] else 1
+        if len(outs[w]) < n:
+            outs[w].append(next(its[w]))
+    rt.reached()
+    for out in outs:
+        if len(out) == n and not _is_perm_of(out, n):
+            return False
+    return True
+
+
 def body_reshuffle_seq(backing, n, epochs, *r):
     """sequential epochs (no overlap): each is a permutation; reports unordered; len; items keep keys attached"""
     rng = rt.Rng(sel=list(r))
@@ -184,6 +209,8 @@ FAMILIES = [
            timeout=dict(quick=60, thorough=300), desc='shuffle(False, rng): a fixed permutation, keys attached'),
     Family('reshuffle2', body_reshuffle2, ['backing', 'n'], RS + SS, lambda tier, seed: [(b, n) for b in ('list', 'dict') for n in range(1, _nmax(tier) + 1)],
            timeout=dict(quick=90, thorough=900), desc='two iterators in flight over one ReShuffleDataset'),
+    Family('frozen2', body_frozen2, ['path', 'n'], RS + SS, lambda tier, seed: [(p, n) for p in ('catch', 'prefetch', 'copies') for n in range(1, _nmax(tier) + 1)],
+           timeout=dict(quick=90, thorough=900), desc='two iterators in flight over per-iteration frozen copies of a ReShuffleDataset'),
     Family('reshuffle_seq', body_reshuffle_seq, ['backing', 'n', 'epochs'], RS,
            lambda tier, seed: [(b, n, e) for b in ('list', 'dict') for n in range(0, 4) for e in (1, 2, 3) if n * e <= 9 and (n < 3 or e < 3 or tier != 'quick')],
            timeout=dict(quick=90, thorough=900), desc='consecutive epochs of a ReShuffleDataset'),
